@@ -125,6 +125,9 @@ func c20(tier string) []*explore.Scenario {
 			}
 		}
 	}
+	for _, n := range []int{2, 3} {
+		out = append(out, c20Overlap(n, "Bidi"), c20Overlap(n, "Unary"))
+	}
 	for nsh := 1; nsh <= 3; nsh++ {
 		out = append(out, c20Stats(nsh, 0))
 	}
@@ -435,6 +438,112 @@ func c20Stats(nsh, bound int) *explore.Scenario {
 				}
 			}
 			vsched.Obs("client RPCs=%d server RPCs=%d", nClient, serverSeen)
+		},
+	}
+}
+
+// c20Overlap: RPCs that overlap in time through a chain of n interceptors:
+// A is parked in its handler while B runs to completion, then A is released,
+// then C runs alone. Every RPC passes every interceptor once, in order.
+func c20Overlap(n int, kind string) *explore.Scenario {
+	fam := "C20/chain"
+	return &explore.Scenario{
+		Name: fmt.Sprintf("C20/chain-overlap/n=%d/%s", n, kind), Family: fam, Prop: "C20", Bound: 1,
+		Run: func() {
+			seen := map[string][]string{}
+			tagOf := func(ctx context.Context) string {
+				md, _ := metadata.FromIncomingContext(ctx)
+				if v := md.Get("tag"); len(v) > 0 {
+					return v[0]
+				}
+				return "?"
+			}
+			var uis []grpc.UnaryServerInterceptor
+			var sis []grpc.StreamServerInterceptor
+			for i := 0; i < n; i++ {
+				i := i
+				uis = append(uis, func(ctx context.Context, req any, info *grpc.UnaryServerInfo, h grpc.UnaryHandler) (any, error) {
+					t := strings.SplitN(string(req.(*env.Msg).Value), "|", 2)[0] // unary requests carry their tag in the payload
+					seen[t] = append(seen[t], fmt.Sprintf("i%d>", i))
+					resp, err := h(ctx, req)
+					seen[t] = append(seen[t], fmt.Sprintf("i%d<", i))
+					return resp, err
+				})
+				sis = append(sis, func(srv any, ss grpc.ServerStream, info *grpc.StreamServerInfo, h grpc.StreamHandler) error {
+					t := tagOf(ss.Context())
+					seen[t] = append(seen[t], fmt.Sprintf("i%d>", i))
+					err := h(srv, ss)
+					seen[t] = append(seen[t], fmt.Sprintf("i%d<", i))
+					return err
+				})
+			}
+			w := env.NewWorld()
+			d := env.NewDirect(w, env.DirectOpts{Pipe: env.PipeOpts{Cap: 64}, ServerOpts: []goat.ServerOption{goat.ChainUnaryInterceptor(uis...), goat.ChainStreamInterceptor(sis...)}})
+			vsched.Settle()
+			vsched.Explore(true)
+			release := make(chan struct{})
+			recs := map[string]*env.Rec{}
+			for _, tag := range []string{"A", "B", "C"} {
+				tag := tag
+				r := w.Rec(tag, kind)
+				recs[tag] = r
+				if kind == "Unary" {
+					w.Unaries[tag] = func(r *env.Rec, ctx context.Context, in string) (string, error) {
+						seen[tag] = append(seen[tag], "H")
+						if tag == "A" {
+							<-release
+						}
+						return "ok", nil
+					}
+				} else {
+					w.Handlers[tag] = func(r *env.Rec, ss grpc.ServerStream) error {
+						seen[tag] = append(seen[tag], "H")
+						if tag == "A" {
+							<-release
+						}
+						return nil
+					}
+				}
+			}
+			call := func(tag string) {
+				r := recs[tag]
+				if kind == "Unary" {
+					w.CallUnary(d.CC, context.Background(), r, "x")
+					return
+				}
+				cs := w.Open(d.CC, context.Background(), r)
+				if cs != nil {
+					env.CClose(r, cs)
+					env.CRecvAll(r, cs)
+				}
+				r.CDone = true
+			}
+			vsched.GoNamed("caller-A", func() { call("A") })
+			vsched.Quiesce() // A is parked in its handler
+			vsched.GoNamed("caller-B", func() { call("B") })
+			vsched.Quiesce()
+			close(release)
+			vsched.Quiesce()
+			vsched.GoNamed("caller-C", func() { call("C") })
+			vsched.Quiesce()
+			want := ""
+			for i := 0; i < n; i++ {
+				want += fmt.Sprintf("i%d> ", i)
+			}
+			want += "H"
+			for i := n - 1; i >= 0; i-- {
+				want += fmt.Sprintf(" i%d<", i)
+			}
+			for _, tag := range []string{"A", "B", "C"} {
+				got := strings.Join(seen[tag], " ")
+				vsched.Obs("%s: %s done=%v err=%s", tag, got, recs[tag].CDone, env.ErrStr(recs[tag].CErr))
+				if got != want {
+					vsched.Fail(fam+"|order", "%s RPC %s (A overlaps B; C runs alone) through %d chained interceptors saw: %s; want: %s", kind, tag, n, got, want)
+				}
+				if !recs[tag].CDone {
+					vsched.Fail(fam+"|status", "%s RPC %s never completed", kind, tag)
+				}
+			}
 		},
 	}
 }
